@@ -238,3 +238,8 @@ PROP = with_src(C10(), share=10,
                           "Src.Specifier.__eq___eq_model", "Src.Specifier.__eq___str", "Src.Specifier.__hash___eq_model",
                           "Src.SpecifierSet.__eq___eq_model", "Src.SpecifierSet.__eq___str", "Src.SpecifierSet.__eq___spec",
                           "Src.SpecifierSet.__hash___eq_model"])
+# … and of Requirement (requirements.py) against Req.eq / the hashed tuple
+PROP = with_src(PROP, share=10, functions=["Requirement.__eq__", "Requirement.__hash__"],
+                module=["PkgProofs.Props.Src.ReqStr", "PkgProofs.Props.Src.ReqEq"],
+                theorems=["Src.reqstr_translated", "Src.reqeq_translated", "Src.Requirement.__eq___eq_model",
+                          "Src.Requirement.__eq___parsed", "Src.Requirement.__eq___other", "Src.Requirement.__hash___eq_model"])
